@@ -346,7 +346,12 @@ def _ctor(name):
             k = dict(k, dtype=builtins.int)
             if len(a) >= 2 and name in ('zeros', 'ones', 'empty'):
                 a = a[:1] + a[2:]
-        return _objectify(real_f(*a, **k)) if dt in (None, float, complex, 'float', 'complex', object) else real_f(*a, **k)
+        out = real_f(*a, **k)
+        if name in ('zeros', 'ones', 'empty', 'zeros_like', 'ones_like') and \
+                dt in (None, float, complex, 'float', 'complex', object):
+            # arrays that are typically filled by item assignment must be able to hold symbolic scalars
+            return _objectify(out)
+        return out
     f.__name__ = name
     return f
 
@@ -427,6 +432,91 @@ class _Linalg:
         return _np_sqrt(tot)
 
 
+def _root_of_unity(n, k, inverse):
+    """exp(-+2 pi i k/n) exactly, for n in 1, 2, 3, 4, 6"""
+    from fractions import Fraction
+    k = k % n
+    sgn = 1 if inverse else -1
+    q = Fraction(k, n)          # fraction of a turn
+    h = SNum(sym.cur().sqrt(z3.RealVal(3)))    # sqrt(3)
+    table = {Fraction(0): (1, 0), Fraction(1, 2): (-1, 0), Fraction(1, 4): (0, 1), Fraction(3, 4): (0, -1),
+             Fraction(1, 3): (Fraction(-1, 2), h / 2), Fraction(2, 3): (Fraction(-1, 2), -h / 2),
+             Fraction(1, 6): (Fraction(1, 2), h / 2), Fraction(5, 6): (Fraction(1, 2), -h / 2)}
+    if q not in table:
+        unsupported("DFT of length %d is outside the modelled sizes (1, 2, 3, 4, 6)" % n)
+    c, s_ = table[q]
+    re = c if is_sym(c) else SNum(sym._rv(c) if not isinstance(c, int) else z3.RealVal(c))
+    im = s_ if is_sym(s_) else SNum(sym._rv(s_) if not isinstance(s_, int) else z3.RealVal(s_))
+    return SCplx(sym._real(re.e), sym._real((im * sgn).e))
+
+
+def _dft1(vec, inverse):
+    n = len(vec)
+    out = _np.empty(n, dtype=object)
+    for j in range(n):
+        acc = SCplx(z3.RealVal(0), z3.RealVal(0))
+        for k in range(n):
+            acc = acc + _root_of_unity(n, j * k, inverse) * vec[k]
+        out[j] = acc / n if inverse else acc
+        out[j] = SCplx(z3.simplify(out[j].re), z3.simplify(out[j].im))
+    return out
+
+
+class _FFT:
+    """np.fft on small object arrays: the exact discrete Fourier transform (lengths 1, 2, 3, 4, 6);
+    fftshift / ifftshift / fftfreq are real numpy"""
+
+    def __getattr__(self, name):
+        return getattr(_np.fft, name)
+
+    @staticmethod
+    def _along(a, axis, inverse):
+        return _np.apply_along_axis(lambda v: _dft1(list(v), inverse), axis, _np.asarray(a, dtype=object))
+
+    @classmethod
+    def _nd(cls, a, axes, inverse, real_f):
+        if not has_sym(a):
+            return real_f(concretize(a), axes=axes) if axes is not None else real_f(concretize(a))
+        a = _np.asarray(a, dtype=object)
+        if axes is None:
+            axes = (-2, -1) if real_f in (_np.fft.fft2, _np.fft.ifft2) else (-1,)
+        for ax in axes:
+            a = cls._along(a, ax, inverse)
+        return a
+
+    @classmethod
+    def fft2(cls, a, s=None, axes=(-2, -1)):
+        return cls._nd(a, axes, False, _np.fft.fft2)
+
+    @classmethod
+    def ifft2(cls, a, s=None, axes=(-2, -1)):
+        return cls._nd(a, axes, True, _np.fft.ifft2)
+
+    @classmethod
+    def fft(cls, a, n=None, axis=-1):
+        if not has_sym(a):
+            return _np.fft.fft(concretize(a), axis=axis)
+        return cls._along(a, axis, False)
+
+    @classmethod
+    def ifft(cls, a, n=None, axis=-1):
+        if not has_sym(a):
+            return _np.fft.ifft(concretize(a), axis=axis)
+        return cls._along(a, axis, True)
+
+
+def _np_allclose(a, b, *x, **k):
+    """np.allclose is an approximation of equality: exact equality over the reals"""
+    if not has_sym(a) and not has_sym(b):
+        return _np.allclose(concretize(a), concretize(b), *x, **k)
+    av, bv = _np.broadcast_arrays(_np.asarray(a, dtype=object), _np.asarray(b, dtype=object))
+    conds = []
+    for u, v in zip(av.flat, bv.flat):
+        r = (u == v)
+        conds.append(_as_sbool(r) if not isinstance(r, SBool) else r.e)
+    return SBool(z3.simplify(z3.And(*conds)))
+
+
 class _Random:
     """scripted symbolic draws: every call returns fresh symbols constrained to
     the documented range of the numpy function (nothing about distribution)"""
@@ -503,7 +593,7 @@ OVERRIDES = {
     'ones_like': _ctor('ones_like'), 'linspace': _ctor('linspace'),
     'arange': _ctor('arange'), 'eye': _ctor('eye'), 'identity': _ctor('identity'),
     'array': _np_array, 'asarray': _np_asarray, 'size': _np_size,
-    'sum': _np_sum, 'mean': _np_mean,
+    'sum': _np_sum, 'mean': _np_mean, 'allclose': _np_allclose,
 }
 
 
@@ -513,6 +603,7 @@ class NpShim(types.ModuleType):
         self.__dict__.update(OVERRIDES)
         self.__dict__['linalg'] = _Linalg()
         self.__dict__['random'] = _Random()
+        self.__dict__['fft'] = _FFT()
 
     @property
     def pi(self):
@@ -671,6 +762,8 @@ def patched(extra=()):
                     new = NP.linalg
                 elif val is _np.random:
                     new = NP.random
+                elif val is _np.fft:
+                    new = NP.fft
                 elif name == 'pi' and isinstance(val, float) and val == _np.pi:
                     new = SNum(sym.PI)
                 elif callable(val) and getattr(val, '__name__', None) in OVERRIDES \
